@@ -752,7 +752,7 @@ class URL:
         parts = []
         _add = parts.append
         if (self.username or self.password) and with_userinfo:
-            _add(quote_userinfo_part(self.username))
+            _add(quote_userinfo_part(self.username or ''))
             if self.password:
                 _add(':')
                 _add(quote_userinfo_part(self.password))
@@ -812,6 +812,11 @@ class URL:
             _add('//')
             _add(authority)
         elif (scheme and path[:2] != '//' and self.uses_netloc):
+            _add('//')
+        elif path[:2] == '//':
+            # RFC 3986 3.3: only after an authority (here: the empty
+            # one) can a path begin with '//'; without the marker the
+            # first segment would be read back as the authority
             _add('//')
         if path:
             if scheme and authority and path[:1] != '/':
